@@ -140,6 +140,11 @@ func (w *world) newNode(i int) *hnode { return w.newNodeWith(i, nil, false) }
 
 // newNodeWith: store == nil means a fresh in-memory store; bootstrap loads the hashgraph from the store.
 func (w *world) newNodeWith(i int, store hg.Store, bootstrap bool) *hnode {
+	return w.newNodeCache(i, store, bootstrap, 10000)
+}
+
+// newNodeCache: the same with a chosen cache size (per-participant index windows roll after cacheSize events)
+func (w *world) newNodeCache(i int, store hg.Store, bootstrap bool, cacheSize int) *hnode {
 	conf := config.NewDefaultConfig()
 	conf.Bootstrap = bootstrap
 	conf.LogLevel = "debug"
@@ -151,7 +156,7 @@ func (w *world) newNodeWith(i int, store hg.Store, bootstrap bool) *hnode {
 	conf.SyncLimit = w.syncLim
 	conf.JoinTimeout = 15 * time.Millisecond
 	conf.EnableFastSync = false
-	conf.CacheSize = 10000
+	conf.CacheSize = cacheSize
 	conf.HeartbeatTimeout = time.Hour
 	conf.SlowHeartbeatTimeout = time.Hour
 	_, tr := net.NewInmemTransport(w.peerl[i].NetAddr)
